@@ -564,8 +564,14 @@ func runSched(f *fake, clock0 uint64, k int, steps []stepJ, adapt func(r *runner
 	f.reset(clock0)
 	run := &caseRun{events: make(chan event, 64), lid2cid: map[int]int{}}
 	r := &runner{f: f, run: run, st: map[int]*cstat{}}
+	caseNo++
+	for c := 0; c < 8; c++ {
+		run.lid2cid[(c+caseNo)%8] = c
+	}
 	r.start = func(cid int) {
-		lid := cid % 8
+		lid := (cid + caseNo) % 8
+		// a fresh Service (fresh Consul client) per caller: nothing survives from earlier calls,
+		// which is what a restarted core looks like to the counter
 		svc, err := local.NewService("consul://" + f.addrs[lid])
 		if err != nil {
 			panic(err)
@@ -619,6 +625,8 @@ func runSched(f *fake, clock0 uint64, k int, steps []stepJ, adapt func(r *runner
 }
 
 // ---------------------------------------------------------------- environment level
+
+var caseNo int
 
 var envStates = []string{"STANDBY", "DEPLOYED", "CONFIGURED", "RUNNING", "DONE", "ERROR"}
 
@@ -675,6 +683,7 @@ type fileInput struct {
 	K          int     `json:"k,omitempty"`
 	Goroutines int     `json:"goroutines,omitempty"`
 	Calls      int     `json:"calls,omitempty"`
+	Rounds     int     `json:"rounds,omitempty"`
 }
 
 var fileSvc *local.Service
@@ -720,47 +729,54 @@ func runFileSerial(file0 *string, k int) gen.Case {
 		Obs: map[string]interface{}{"results": obs, "final": final}}
 }
 
-func runFileStress(goroutines, calls int) gen.Case {
-	zero := "0"
-	setFile(&zero)
-	var mu sync.Mutex
-	seen := map[uint32]int{}
-	errs := 0
-	var wg sync.WaitGroup
-	startCh := make(chan struct{})
-	for g := 0; g < goroutines; g++ {
-		wg.Add(1)
-		go func() {
-			defer wg.Done()
-			<-startCh
-			for c := 0; c < calls; c++ {
-				v, err := fileSvc.NewRunNumber()
-				mu.Lock()
-				if err != nil {
-					errs++
-				} else {
-					seen[v]++
-				}
-				mu.Unlock()
-			}
-		}()
-	}
-	close(startCh)
-	wg.Wait()
-	dups, returned := 0, 0
+// runFileStress: concurrent NewRunNumber calls on the file backend, repeated (from a fresh "0"
+// file) until a number has been returned twice or maxRounds is reached. The race is in the
+// operating system's hands, so the outcome is only ever reported, never required.
+func runFileStress(goroutines, calls, maxRounds int) gen.Case {
+	dups, returned, errs, rounds := 0, 0, 0, 0
 	var example uint32
-	for v, n := range seen {
-		returned += n
-		if n > 1 {
-			dups += n - 1
-			if example == 0 || v < example {
-				example = v
+	for rounds < maxRounds && dups == 0 {
+		rounds++
+		zero := "0"
+		setFile(&zero)
+		var mu sync.Mutex
+		seen := map[uint32]int{}
+		var wg sync.WaitGroup
+		startCh := make(chan struct{})
+		for g := 0; g < goroutines; g++ {
+			wg.Add(1)
+			go func() {
+				defer wg.Done()
+				<-startCh
+				for c := 0; c < calls; c++ {
+					v, err := fileSvc.NewRunNumber()
+					mu.Lock()
+					if err != nil {
+						errs++
+					} else {
+						seen[v]++
+					}
+					mu.Unlock()
+				}
+			}()
+		}
+		close(startCh)
+		wg.Wait()
+		for v, n := range seen {
+			returned += n
+			if n > 1 {
+				dups += n - 1
+				if example == 0 || v < example {
+					example = v
+				}
 			}
 		}
 	}
 	term := fmt.Sprintf("CFileStress %d %d %d", goroutines, calls, dups)
-	return gen.Case{Term: term, Kind: "file-stress", Input: fileInput{Goroutines: goroutines, Calls: calls},
-		Obs: map[string]interface{}{"returned": returned, "errors": errs, "duplicates": dups, "smallest_duplicated": example}}
+	return gen.Case{Term: term, Kind: "file-stress",
+		Input: fileInput{Goroutines: goroutines, Calls: calls, Rounds: maxRounds},
+		Obs: map[string]interface{}{"rounds_run": rounds, "returned": returned, "errors": errs,
+			"duplicates": dups, "smallest_duplicated": example}}
 }
 
 // ---------------------------------------------------------------- generators
@@ -855,8 +871,6 @@ func corpus() []corpusCase {
 		{1, 2, []stepJ{put("4294967294"), sv(0), sv(0), sv(1), sv(1)}},
 		// C07_needs_monotone_foreign_writers witness
 		{0, 2, []stepJ{put("5"), sv(0), sv(0), put("5"), sv(1), sv(1)}},
-		// C07_nonvacuous
-		{7, 6, []stepJ{sv(0), sv(1), sv(1), sv(0), sv(2), put("1"), sv(2), sv(3), op("lost", 3), sv(4), op("crash", 5), sv(4)}},
 		// race on creation with cas=0
 		{0, 2, []stepJ{sv(0), sv(1), sv(0), sv(1)}},
 		{3, 3, []stepJ{sv(0), sv(1), sv(2), sv(2), sv(1), sv(0)}},
@@ -872,6 +886,8 @@ func corpus() []corpusCase {
 		// failures and deaths at every phase
 		{5, 4, []stepJ{put("7"), op("fail", 0), sv(1), op("fail", 1), sv(2), op("lost", 2), sv(3), sv(3)}},
 		{5, 4, []stepJ{put("7"), op("crash", 0), sv(1), op("crash", 1), op("lost", 2), sv(3), sv(3), sv(0), sv(1)}},
+		// C07_nonvacuous
+		{7, 6, []stepJ{sv(0), sv(1), sv(1), sv(0), sv(2), put("1"), sv(2), sv(3), op("lost", 3), sv(4), op("crash", 5), sv(4)}},
 		// the boundary itself
 		{1, 2, []stepJ{put("4294967295"), sv(0), sv(0), sv(1), sv(1)}},
 		{1, 1, []stepJ{put("4294967296"), sv(0), sv(0)}},
@@ -899,10 +915,10 @@ func genEnvSteps(rg *gen.Rand) (int, []stepJ) {
 	default:
 		steps = append(steps, put(rg.Pick(numberValues)))
 	}
-	first := []string{"serve", "serve", "serve", "serve", "serve", "fail", "lost", "crash"}[rg.Intn(8)]
+	first := []string{"serve", "serve", "serve", "serve", "serve", "serve", "serve", "serve", "fail", "lost", "crash"}[rg.Intn(11)]
 	steps = append(steps, op(first, 0))
 	// interference between the read and the CAS
-	switch rg.Intn(6) {
+	switch rg.Intn(9) {
 	case 0:
 		steps = append(steps, put("9"))
 	case 1:
@@ -910,7 +926,7 @@ func genEnvSteps(rg *gen.Rand) (int, []stepJ) {
 	case 2:
 		steps = append(steps, put("500000"))
 	}
-	second := []string{"serve", "serve", "serve", "serve", "serve", "fail", "lost", "crash"}[rg.Intn(8)]
+	second := []string{"serve", "serve", "serve", "serve", "serve", "serve", "serve", "fail", "lost", "crash"}[rg.Intn(10)]
 	steps = append(steps, op(second, 0))
 	return state0, steps
 }
@@ -998,7 +1014,10 @@ func main() {
 				if err := json.Unmarshal(raw, &in); err != nil {
 					panic(err)
 				}
-				cases = append(cases, runFileStress(in.Goroutines, in.Calls))
+				if in.Rounds < 1 {
+					in.Rounds = 1
+				}
+				cases = append(cases, runFileStress(in.Goroutines, in.Calls, in.Rounds))
 			}
 		}
 	} else {
@@ -1008,7 +1027,7 @@ func main() {
 			cases = append(cases, runSched(f, c.clock0, c.k, c.steps, nil, 0, "sched-corpus"))
 		}
 		// the file-backend race (known finding C07-a when a duplicate shows)
-		cases = append(cases, runFileStress(16, 200))
+		cases = append(cases, runFileStress(8, 200, 25))
 		nSched := o.N * 50 / 100
 		nHost := o.N * 10 / 100
 		nEnv := o.N * 22 / 100
